@@ -813,9 +813,11 @@ func (c *updater) buildBackendProtocol(d *backData) {
 		var crtFile convtypes.CrtFile
 		namespace, name, err := crt.NamespacedName()
 		if err == nil {
+			// the namespace of the source is the default one, so
+			// cross namespace permission is properly evaluated
 			crtFile, err = c.cache.GetTLSSecretPath(
-				namespace,
-				name,
+				sourceNamespace(crt, namespace),
+				namespace+"/"+name,
 				[]convtypes.TrackingRef{{Context: convtypes.ResourceHABackend, UniqueName: d.backend.ID}},
 			)
 		}
@@ -852,8 +854,8 @@ func (c *updater) buildBackendProtocol(d *backData) {
 		namespace, name, err := ca.NamespacedName()
 		if err == nil {
 			caFile, crlFile, err = c.cache.GetCASecretPath(
-				namespace,
-				name,
+				sourceNamespace(ca, namespace),
+				namespace+"/"+name,
 				[]convtypes.TrackingRef{{Context: convtypes.ResourceHABackend, UniqueName: d.backend.ID}},
 			)
 		}
@@ -866,6 +868,15 @@ func (c *updater) buildBackendProtocol(d *backData) {
 			c.logger.Warn("skipping CA on %s: %v", ca.Source.String(), err)
 		}
 	}
+}
+
+// sourceNamespace returns the namespace of the resource that declares a
+// configuration, or the provided default one on global configurations.
+func sourceNamespace(cfg *ConfigValue, defaultNamespace string) string {
+	if cfg.Source != nil && cfg.Source.Namespace != "" {
+		return cfg.Source.Namespace
+	}
+	return defaultNamespace
 }
 
 func (c *updater) buildBackendProxyProtocol(d *backData) {
